@@ -102,6 +102,7 @@ static std::string show(const Triple & t)
 struct Scenario
 {
   std::string name; int readers, producers, consumers; uint64_t ops; int yield_permille;
+  bool initial_value = false;
 };
 
 struct Outcome
@@ -167,7 +168,15 @@ static Outcome run_shared_variable(const Scenario & sc)
 static Outcome run_shared_optional(const Scenario & sc)
 {
   Outcome out; out.logs.resize(sc.consumers);
-  SharedOptionalVariable<uint64_t> var;
+  // construction route: empty slot, or a slot created holding a value (id 0 of "producer 0").  With an
+  // initial value the producers only start once a consumer has polled, so that a consume() completes
+  // before the first store(): no sequential order loses the initial value then
+  const bool with_initial = sc.initial_value;
+  const uint64_t INITIAL_ID = (uint64_t)0xABCDEF;
+  SharedOptionalVariable<uint64_t> var_empty;
+  SharedOptionalVariable<uint64_t> var_init(INITIAL_ID);
+  SharedOptionalVariable<uint64_t> & var = with_initial ? var_init : var_empty;
+  std::atomic<int> polls_completed{0};
   std::atomic<int> producers_done{0};
   std::atomic<uint64_t> completed_seq{0};      // single-producer runs: seq of the last store() that has RETURNED
   StartGate gate;
@@ -177,6 +186,7 @@ static Outcome run_shared_optional(const Scenario & sc)
   for (int p = 0; p < sc.producers; ++p) {
     th.emplace_back([&, p]() {
         gate.arrive_and_wait();
+        while (with_initial && polls_completed.load(std::memory_order_acquire) == 0) {std::this_thread::yield();}
         for (uint64_t k = 1; k <= per; ++k) {
           var.store(((uint64_t)(p + 1) << 40) | k);
           if (sc.producers == 1) {completed_seq.store(k, std::memory_order_release);}
@@ -195,9 +205,10 @@ static Outcome run_shared_optional(const Scenario & sc)
           // consume() started, and whose value nobody else can have taken, cannot be missed
           const uint64_t done_before = (sc.producers == 1 && sc.consumers == 1) ? completed_seq.load(std::memory_order_acquire) : 0;
           std::optional<uint64_t> v = var.consume();
+          polls_completed.fetch_add(1, std::memory_order_release);
           ++L.reads;
           if (!v && done_before > 0) {
-            uint64_t last_recv = consumed[i].empty() ? 0 : (consumed[i].back() & ((1ULL << 40) - 1));
+            uint64_t last_recv = (consumed[i].empty() || consumed[i].back() == INITIAL_ID) ? 0 : (consumed[i].back() & ((1ULL << 40) - 1));
             if (done_before > last_recv && L.violation.empty()) {
               L.kind = "optional_stored_value_not_delivered";
               L.violation = vh::J().f("store_completed_seq", done_before).f("last_received_seq", last_recv).str();
@@ -212,6 +223,18 @@ static Outcome run_shared_optional(const Scenario & sc)
   }
   gate.open(sc.producers + sc.consumers);
   for (auto & t : th) {t.join();}
+  if (with_initial) {
+    int delivered = 0;
+    for (int i = 0; i < sc.consumers; ++i) {for (uint64_t id : consumed[i]) {if (id == INITIAL_ID) {++delivered;}}}
+    out.op_counts["SharedOptionalVariable(value): initial value delivered"] += delivered;
+    if (delivered != 1) {
+      ReaderLog & L = out.logs[0];
+      if (L.violation.empty()) {
+        L.kind = delivered == 0 ? "optional_initial_value_not_delivered" : "optional_value_consumed_twice";
+        L.violation = vh::J().s("at", "a slot constructed with a value, first consume() completed before the first store()").f("times_delivered", delivered).str();
+      }
+    }
+  }
   // quiescence: with every thread joined, an empty slot means the value of the globally last
   // store - some producer's final store - was handed to a consumer
   std::optional<uint64_t> left = var.consume();
@@ -230,6 +253,7 @@ static Outcome run_shared_optional(const Scenario & sc)
     ReaderLog & L = out.logs[i];
     std::map<uint64_t, uint64_t> last_seq;
     for (uint64_t id : consumed[i]) {
+      if (with_initial && id == INITIAL_ID) {continue;}      // counted above
       uint64_t p = id >> 40, k = id & ((1ULL << 40) - 1);
       if (p < 1 || p > (uint64_t)sc.producers || k < 1 || k > per) {
         if (L.violation.empty()) {L.kind = "optional_value_never_stored"; L.violation = vh::J().f("id", id).str();}
@@ -678,6 +702,7 @@ static void one_case(vh::Ctx & c, uint64_t idx)
   sc.yield_permille = (int)(((idx / NSCEN) % 3) == 0 ? 0 : r.range(1, 30));
   g_yield_permille.store(sc.yield_permille);
   g_seed_salt.store(vh::mix(c.seed, idx) | 1);
+  if (s == 1) {sc.initial_value = ((idx / NSCEN) % 2) == 1; c.cat(sc.initial_value ? "optional_constructed_with_value" : "optional_constructed_empty");}
   c.cat("scenario_" + sc.name);
   c.cat("readers_" + std::to_string(s == 1 ? sc.consumers : sc.readers));
   if (s == 1) {c.cat("producers_" + std::to_string(sc.producers));}
